@@ -21,10 +21,37 @@ def mk(d, all_schemas=False, only=None):
     return {"op": "disc.run", "in": i}
 
 
+SPELLS = ["snake", "kebab", "camel", "dotted"]
+
+
+def respell(name, style):
+    """another spelling of a PascalCase schema name with the same Rust type name (`to_rust_type_name(respell(n)) == n`)"""
+    import re
+    words = re.findall(r"[A-Z][a-z0-9]*", name)
+    if "".join(words) != name or not words:
+        return name
+    if style == "camel":
+        return words[0].lower() + "".join(words[1:])
+    sep = {"snake": "_", "kebab": "-", "dotted": "."}[style]
+    return sep.join(w.lower() for w in words)
+
+
+def rename_map(spec, style):
+    return {n: respell(n, style) for n in (spec.get("components") or {}).get("schemas") or {} if respell(n, style) != n}
+
+
 def prepare(case, arena=False):
     if not case["op"].startswith("disc."):
         return case
     i = case["in"]
+    if case["op"] == "disc.run" and i.get("?spell") and not arena:
+        # the same document with its schema names spelled in snake / kebab / camel / dotted case: the harness rewrites the
+        # document and maps schema-level names back, the emitted names are unchanged (so are model and judge)
+        assert i["?spell"] in SPELLS
+        base = prepare({"op": case["op"], "in": {k: v for k, v in i.items() if k != "?spell"}})
+        base["in"]["?spell"] = i["?spell"]
+        base["in"]["rename"] = rename_map(base["in"]["spec"], i["?spell"])
+        return base
     if case["op"] == "disc.site":
         spec, locs = site_spec(i["d"])
         out = {"d": i["d"], "all": i.get("all", False), "spec": spec, "sites": locs, "mode": "client-mod",
@@ -250,6 +277,10 @@ def cases(ctx):
     out = list(st)
     for _ in range(2500 if ctx.quick else 9000):
         out.append(random_case(r))
+    # schema names that are not Rust type names already (a fifth of the cases)
+    for c in out:
+        if c["op"] == "disc.run" and r.random() < 0.2:
+            c["in"]["?spell"] = r.choice(SPELLS)
     return out
 
 
@@ -632,5 +663,5 @@ def run(ctx):
             "abstraction of the OpenAPI document to Oas3.Discr.Spec in the Lean driver (Driver/Discr.lean)",
             "use sites: Sem.firstAccepting/shapeAccepts/siteDecode (serde `untagged` = first variant whose struct accepts; required keys and enum-typed fields are read from the EMITTED structs, for the implementation's and for the model's verdict alike) — validated by the arena in the thorough tier; syn extraction of the type at a site (k_disc.rs::site_types); recognition of the site spelling in Driver/Discr.lean::siteSchOf (unrecognised spellings are refused, not defaulted)"],
         rule="bounded-exhaustive families {oneOf,anyOf} x {1..3 members} x {full,partial,multi-tag,3 tags,implicit-by-const} x {plain,const,enum-typed,mixed tag property} x {additionalProperties:false} x {second union sharing a child: same/different tag, before/after in name order, implicit} x {nested union} x {operation roots} x {all-schemas}; allOf bases {1..3 children} x {full,partial,multi} x {inline/own child form} x {child const override} x {enum-typed base tag} x {grandchild} x {operation roots: base only, base+first, base+all, child only} x {--only filters} x {all-schemas} (all ~24k in thorough, 2500 sampled in quick) + random configurations (2-5 leaves, 0-3 unions, 0-2 bases, exotic tags/property names, shuffled); each is generated in-process by /repo's generator, facts extracted with syn, compared with the model and JUDGED; thorough: 300+ specs compiled and executed in the arena; non-trivial = has a discriminator; distinct by input hash.  USE SITES (op disc.site): positions {component, property req/opt, request body + response} x spellings {union, type:[object,null], array of union, nullable wrapper oneOf/anyOf around union or array, discriminator inner/outer} x {oneOf,anyOf} x {full, multi-tag, implied, 3 members full/partial} x tag property {plain, const, enum-typed} x neighbours {none, plain / other property / other mapping twin over the same member set as component, property of another or the same holder, array items; before/after in name order} (15510 documents; 1800 sampled in quick) + random site documents (2-4 overlapping members, 1-5 sites); thorough: +280 site documents compiled, element documents decoded at the site's core type",
-        assumptions=["schema names are valid Rust type names (to_rust_type_name is the identity on them)", "union members and mapping targets are `#/components/schemas/…` references; inline members are out of scope",
+        assumptions=["schema names are valid Rust type names, or (a fifth of the disc.run cases) snake / kebab / camel / dotted spellings with the same Rust type name", "union members and mapping targets are `#/components/schemas/…` references; inline members are out of scope",
                      "a valid document for mapping entry tag↦S carries the tag and the properties of S; entries whose tag S's own tag property forbids (const/enum) have no valid document and are not judged"])
